@@ -15,7 +15,10 @@ for f in sorted(glob.glob(os.path.join(root, "*", "meta.json"))):
             break
     first = re.sub(r"\s+", " ", first)[:150]
     files = sorted(set(re.findall(r"^\+\+\+ b/python/lsst/daf/relation/(\S+)", open(os.path.join(os.path.dirname(f), "patch.diff")).read(), re.M)))
-    rows.append((m["id"], ", ".join(files), first, ", ".join(m["caught_by"]) or "none", ", ".join(m["not_caught_by"]) or ""))
+    caught = ", ".join(m["caught_by"]) or "none"
+    if m.get("neutralised_at_repo_commit"):
+        caught += f" (at {m.get('applies_to_repo_commit', '?')}; harmless since {m['neutralised_at_repo_commit']})"
+    rows.append((m["id"], ", ".join(files), first, caught, ", ".join(m["not_caught_by"]) or ""))
 print("| id | file(s) changed | what (author's words, abridged) | caught by | tried, silent |")
 print("|---|---|---|---|---|")
 for r in rows:
